@@ -23,6 +23,10 @@ pub enum Job {
     Start(u8),
     Noop,
     View,
+    /// the shell drops the n-th (mapped onto the live ones) outstanding request unanswered on this
+    /// thread - which wakes the task that waits for it from here - and then makes a no-op call
+    #[serde(alias = "DropReq")]
+    Drop(u16),
 }
 
 #[derive(Debug, Clone, PartialEq, Eq, Hash, Serialize, Deserialize)]
@@ -152,6 +156,7 @@ fn install_hook() {
 }
 
 enum Work {
+    Drop(Request<Op>),
     Resolve(Request<Op>, Out),
     Send(Event),
     View,
@@ -186,6 +191,12 @@ pub fn run_conc(case: &ConcCase) -> Result<ConcInfo, String> {
     // judge everything observed since the last judgement
     let mut judge = |effects: Vec<Effect>, outstanding: &mut Vec<Request<Op>>, views: Vec<Vec<Event>>| -> Result<(), String> {
         let trace = sink.take();
+        if std::env::var_os("VERIF_TRACE").is_some() {
+            for t in &trace {
+                println!("      {t:?}");
+            }
+            println!("--- phase judged; effects returned: {:?}", effects.iter().filter_map(|e| if let Effect::Sim(r) = e { Some(&r.operation.path) } else { None }).collect::<Vec<_>>());
+        }
         reference.replay(&witness_only(&trace))?;
         reference.obligations()?;
         let (ref_effects, _) = reference.take_outputs();
@@ -245,6 +256,16 @@ pub fn run_conc(case: &ConcCase) -> Result<ConcInfo, String> {
                     nonce += 1;
                     work.push(Work::Resolve(req, Out::new(nonce)));
                 }
+                Job::Drop(c) => {
+                    // only requests of tasks the witness can see: when the invisible task of an opaque chain
+                    // is discarded after a drop cannot be told, and the answer to a resolution of another of
+                    // its requests made meanwhile on another thread depends on exactly that moment
+                    let alive: Vec<usize> = (0..outstanding.len()).filter(|&i| reference.consumer_alive(&outstanding[i].operation.path) && reference.owner_is_visible(&outstanding[i].operation.path)).collect();
+                    if alive.is_empty() {
+                        continue;
+                    }
+                    work.push(Work::Drop(outstanding.remove(alive[pick(*c, alive.len())])));
+                }
                 Job::Start(p) => work.push(Work::Send(Event::Start { uni: uni.id, prog: (*p as usize % u.programs.len()) as u16 })),
                 Job::Noop => work.push(Work::Send(Event::Noop)),
                 Job::View => work.push(Work::View),
@@ -280,6 +301,11 @@ pub fn run_conc(case: &ConcCase) -> Result<ConcInfo, String> {
                             let nonce = out.nonce;
                             let r = core.resolve(&mut req, out).map_err(|e| e.to_string());
                             Done::Resolved(req, nonce, r)
+                        }
+                        Work::Drop(req) => {
+                            sink.push(Tr::DropReq(req.operation.path.clone()));
+                            drop(req); // closes the request's channel: the waiting task is woken from this thread
+                            Done::Sent(core.process_event(Event::Noop))
                         }
                         Work::Send(ev) => Done::Sent(core.process_event(ev)),
                         Work::View => Done::Viewed(core.view()),
